@@ -50,6 +50,15 @@ func (c10) Gen(r *rand.Rand, tier string, idx int) *core.Plan {
 		p.World["N"] = int64(n + core.Pick(r, -1, 0, 1)) // limit at / around the listing length
 	}
 	p.World["ref"] = int64(core.Pick(r, 0, 0, 0, 1, 1, 2, 3, 4)) // 0 tag 1 digest 2 mismatching digest 3 none 4 malformed
+	if r.IntN(5) == 0 {
+		// digests of another algorithm: the repository resolves to a sha512 descriptor and / or the reference
+		// names one (5: sha512 of the artifact, 6: sha512 of something else); equal means equal strings
+		p.World["ralg"] = int64(r.IntN(2))
+		p.World["ref"] = int64(core.Pick(r, 0, 1, 1, 2, 5, 5, 6))
+		if p.World["ralg"] == 0 && p.World["ref"] < 5 {
+			p.World["ralg"] = 1
+		}
+	}
 	p.World["skip"] = int64(core.Pick(r, 0, 0, 0, 0, 1))
 	p.World["skipper"] = int64(core.Pick(r, 1, 1, 1, 0))
 	p.World["trailingEmptyPage"] = int64(r.IntN(2))
@@ -74,6 +83,8 @@ const c10Repo = "registry.example/repo"
 
 var c10Digest = digest.FromString("artifact")
 var c10Other = digest.FromString("something else")
+var c10Digest512 = digest.SHA512.FromString("artifact")
+var c10Other512 = digest.SHA512.FromString("something else")
 
 type c10Call struct {
 	Kind string `json:"kind"`
@@ -201,20 +212,34 @@ func (l c10) Exec(env *core.Env) *core.Result {
 	}
 	N := int(p.W("N"))
 	var ref string
+	resolved := c10Digest
+	if p.W("ralg") == 1 {
+		resolved = c10Digest512
+	}
+	var refDigest digest.Digest
 	switch p.W("ref") {
 	case 0:
 		ref = c10Repo + ":v1"
 	case 1:
-		ref = c10Repo + "@" + c10Digest.String()
+		refDigest = c10Digest
 	case 2:
-		ref = c10Repo + "@" + c10Other.String()
+		refDigest = c10Other
+	case 5:
+		refDigest = c10Digest512
+	case 6:
+		refDigest = c10Other512
 	case 3:
 		ref = c10Repo
 	default:
 		ref = "Not A Reference@@"
 	}
+	if refDigest != "" {
+		ref = c10Repo + "@" + refDigest.String()
+	}
+	noRef := p.W("ref") == 3 || p.W("ref") == 4
+	mismatch := refDigest != "" && refDigest != resolved
 	var repoLog, verLog []c10Call
-	repo := &c10Repository{listing: pages, log: &repoLog, desc: ocispec.Descriptor{MediaType: ocispec.MediaTypeImageManifest, Digest: c10Digest, Size: 528, Annotations: map[string]string{"k": "v"}}}
+	repo := &c10Repository{listing: pages, log: &repoLog, desc: ocispec.Descriptor{MediaType: ocispec.MediaTypeImageManifest, Digest: resolved, Size: 528, Annotations: map[string]string{"k": "v"}}}
 	base := c10Verifier{log: &verLog, outcomes: map[string]*notation.VerificationOutcome{}, skip: p.W("skip") == 1}
 	var ver notation.Verifier = &base
 	skipper := p.W("skipper") == 1
@@ -248,7 +273,7 @@ func (l c10) Exec(env *core.Env) *core.Result {
 		}
 		return false
 	}
-	key := fmt.Sprintf("N=%d ref=%d skip=%d/%d listing=%v pages=%v faults=%v", N, p.W("ref"), p.W("skip"), p.W("skipper"), flat, pagesShape(pages), p.Faults)
+	key := fmt.Sprintf("N=%d ref=%d/%d skip=%d/%d listing=%v pages=%v faults=%v", N, p.W("ref"), p.W("ralg"), p.W("skip"), p.W("skipper"), flat, pagesShape(pages), p.Faults)
 	verdict := "ok"
 	if err != nil {
 		verdict = "err"
@@ -290,7 +315,7 @@ func (l c10) Exec(env *core.Env) *core.Result {
 		}
 		// (a reference without tag or digest / a malformed one "is an error", and under skip "nothing is resolved":
 		// when both apply the statement does not say which wins - an error is as good as the skip outcome)
-		if badRef := p.W("ref") >= 3 && err != nil; N > 0 && !badRef && (err != nil || len(outcomes) != 1 || outcomes[0].VerificationLevel != trustpolicy.LevelSkip) {
+		if badRef := noRef && err != nil; N > 0 && !badRef && (err != nil || len(outcomes) != 1 || outcomes[0].VerificationLevel != trustpolicy.LevelSkip) {
 			res.Violate("C10/skip-not-reported", key, "skip level: err=%v outcomes=%d", err, len(outcomes))
 		}
 		return res
@@ -306,11 +331,11 @@ func (l c10) Exec(env *core.Env) *core.Result {
 	switch {
 	case N <= 0:
 		expFail = "non-positive limit"
-	case p.W("ref") >= 3:
+	case noRef:
 		expFail = "reference without tag or digest / malformed"
 	case fault("registry.resolve", 0):
 		expFail = "resolve error"
-	case p.W("ref") == 2:
+	case mismatch:
 		expFail = "digest mismatch"
 	default:
 		res.Nontrivial = len(flat) > 0
@@ -362,7 +387,7 @@ func (l c10) Exec(env *core.Env) *core.Result {
 		if err == nil {
 			res.Violate("C10/success-where-failure-required", expFail, "notation.Verify succeeded although: %s [%s]", expFail, key)
 		}
-		if N <= 0 || p.W("ref") >= 2 || fault("registry.resolve", 0) {
+		if N <= 0 || noRef || mismatch || fault("registry.resolve", 0) {
 			if len(fetches) > 0 || count(repoLog, "list") > 0 {
 				res.Violate("C10/listed-or-fetched-before-reference-was-accepted", expFail, "repository log %v although: %s", repoLog, expFail)
 			}
@@ -381,7 +406,7 @@ func (l c10) Exec(env *core.Env) *core.Result {
 		}
 	}
 	// 4. exact call logs (only when the course is fully determined by the model)
-	if N > 0 && p.W("ref") < 2 && !fault("registry.resolve", 0) {
+	if N > 0 && !noRef && !mismatch && !fault("registry.resolve", 0) {
 		if strings.Join(fetches, ",") != strings.Join(expFetch, ",") {
 			res.Violate("C10/fetch-log-differs", key, "fetched %v, model %v", fetches, expFetch)
 		}
@@ -389,7 +414,7 @@ func (l c10) Exec(env *core.Env) *core.Result {
 			res.Violate("C10/verify-log-differs", key, "evaluated %v, model %v", verifies, expVerify)
 		}
 		for _, c := range verLog {
-			if c.Kind == "verify" && !strings.Contains(c.Arg, "|"+c10Digest.String()+"|application/jose+json") {
+			if c.Kind == "verify" && !strings.Contains(c.Arg, "|"+resolved.String()+"|application/jose+json") {
 				res.Violate("C10/verifier-got-wrong-arguments", key, "verifier call %q does not carry the resolved descriptor and the fetched media type", c.Arg)
 			}
 		}
